@@ -762,7 +762,7 @@ struct H {
 	long next_val = 1;
 	long fresh(Rng& /*rng*/) { long v = next_val; next_val = next_val % 97 + 1; return v; }
 
-	static long pick_size(Rng& rng) { return (long[]){0, 1, 2, 3, 4}[rng.pick({14, 20, 30, 24, 12})]; }
+	static long pick_size(Rng& rng) { if(rng.coin(3)) { return (long[]){16, 17, 33}[rng.range(0, 2)]; }  /* now and then beyond the small sizes (the caps of the callers still apply) */ return (long[]){0, 1, 2, 3, 4}[rng.pick({14, 20, 30, 24, 12})]; }
 	std::vector<Ex> gen_exts(Rng& rng, int D, long cap = 36) {
 		std::vector<Ex> ex; long ne = 1;
 		for(int k = 0; k < D; ++k) {
